@@ -298,6 +298,9 @@ func runC06(ctx *Ctx) error {
 	if err := c06DateCorr(ctx, ctx.N(1500, 20000)); err != nil {
 		return err
 	}
+	if err := c06BoolCorr(ctx); err != nil {
+		return err
+	}
 	rows, notes, err := c06Measure(ctx)
 	if err != nil {
 		return err
